@@ -1,7 +1,7 @@
 (* C02 - the type checker is complete and independent of spelling and iteration order.        *)
 From Coq Require Import List Arith Bool ZArith Permutation.
 From PV Require Import Base.Exn Base.Values Base.Ann Model.CheckerCfg Model.Checker Spec.Conforms
-  Gen.CheckerTables Proofs.CheckerGood Proofs.CheckerRefine Proofs.CheckerSpec Proofs.CheckerTop Proofs.CheckerSpell.
+  Gen.CheckerTables Proofs.CheckerGood Proofs.CheckerRefine Proofs.CheckerSpec Proofs.CheckerTop Proofs.CheckerSpell Proofs.CheckerReorderDeep.
 Import ListNotations.
 
 Definition cfg := Gen.CheckerTables.checker_cfg.
@@ -41,6 +41,17 @@ Proof.
 Qed.
 Print Assumptions C02_iteration_order_independent.
 
+(* ... at ANY depth: sets / frozensets / dicts / defaultdicts nested anywhere inside the value (inside list elements,
+   tuple members, dict keys and values, set elements, ...) may each iterate in any order *)
+Theorem C02_iteration_order_independent_deep : forall ctx hook a v v', dreorder v v' -> supported ctx a = true ->
+  forall tv, assert_matches cfg ctx hook a v tv = assert_matches cfg ctx hook a v' tv.
+Proof.
+  intros ctx hook a v v' Hr Hs tv.
+  rewrite (assert_pure cfg good ctx hook a Hs v tv), (assert_pure cfg good ctx hook a Hs v' tv).
+  now rewrite (deep_iteration_order_independent cfg ctx v v' Hr a).
+Qed.
+Print Assumptions C02_iteration_order_independent_deep.
+
 (* KNOWN FINDING K-C02-abc (open): the PEP 585 spelling through collections.abc / collections is NOT covered by
    C02_complete (`supported` excludes SpAbc): the faithful model rejects a conforming value there. *)
 Theorem C02_abc_spelling_refuted : exists a v, conforms (fun _ => None) a v = Must /\
@@ -64,3 +75,13 @@ Example ex_accepts : assert_matches1 cfg (fun _ => None) a1 (VList [VInt 1; VNon
 Proof. vm_compute. reflexivity. Qed.
 Example ex_reorder : reorder (VSet [VInt 1; VInt 2]) (VSet [VInt 2; VInt 1]).
 Proof. apply perm_swap. Qed.
+
+(* [{'k': {1, 2}}, ...] vs [{'k': {2, 1}}, ...]: a set two levels down *)
+Example ex_reorder_deep : dreorder (VList [VDict [(VStr [107], VSet [VInt 1; VInt 2]); (VStr [108], VSet [])]])
+                                   (VList [VDict [(VStr [108], VSet []); (VStr [107], VSet [VInt 2; VInt 1])]]).
+Proof.
+  apply dr_list. constructor; [|constructor].
+  apply (dr_dict _ [(VStr [107], VSet [VInt 2; VInt 1]); (VStr [108], VSet [])]); [|apply perm_swap].
+  constructor; [apply dr_refl | | constructor; [apply dr_refl|apply dr_refl|constructor]].
+  apply (dr_set _ [VInt 1; VInt 2]); [apply drl_refl|apply perm_swap].
+Qed.
